@@ -5,9 +5,10 @@ A case is JSON-able:
    'dyn':  [spec, ...],           modules that only exist as the product of a Pinata's scanModules
    'sched': None | [choices]}     schedule prefix for vlib.sched (None: never preempt)
   spec = {'name', 'cls': 'L'|'IO'|'HIO'|'PIN', 'export': bool, 'poll': bool,
-          'params': [[pname, has_write, cls_default, cls_value, cfg_default, cfg_value]],   parameters of the class, in the order of
+          'params': [[pname, has_write, cls_default, cls_value, cfg_default, cfg_value(, needscfg, bad)]],   parameters of the class, in the order of
                     its accessibles: is there a write_<pname> method, Parameter(default=, value=) of the declaration and
-                    `default` / `value` given in the configuration (small integers or None = not given)
+                    `default` / `value` given in the configuration (small integers or None = not given); optionally
+                    Parameter(needscfg=True) and "the value given in the configuration is not of the datatype"
                     (cases recorded earlier have 'writes': [pname] instead = [pname, True, 0, None, None, 1] each)
           'atts': [[aname, target|None, mandatory, kind]], 'te': [aname], 'ti': [aname], 'fe': bool, 'fi': bool,
           'uri': str|None, 'scan': [name], 'delay': seconds,
@@ -166,7 +167,7 @@ def get_class(spec):
     from frappy.io import HasIO
     from frappy.dynamic import Pinata
     kind = spec['cls']
-    pkey = tuple((q[0], bool(q[1]), q[2], q[3]) for q in params_of(spec))
+    pkey = tuple((q[0], bool(q[1]), q[2], q[3], bool(q[6]) if len(q) > 6 else False) for q in params_of(spec))
     key = (kind, spec['poll'], tuple((a, bool(m), int(k)) for a, _t, m, k in spec['atts']), pkey)
     cls = _classes.get(key)
     if cls is not None:
@@ -178,8 +179,8 @@ def get_class(spec):
         # the communicator class that HasIO users create on their own
         _classes['IOC'] = type('AutoIO', (Instr, Communicator), dict(ns, **ions))
     ns = dict(_classes['ns'])
-    for pname, has_write, cls_default, cls_value in pkey:
-        kwds = {}
+    for pname, has_write, cls_default, cls_value, needscfg in pkey:
+        kwds = {'needscfg': True} if needscfg else {}
         if cls_default is not None:
             kwds['default'] = cls_default
         if cls_value is not None:
@@ -218,12 +219,13 @@ def cfg_of(spec):
             cfg[a] = target
     if spec.get('uri'):
         cfg['uri'] = spec['uri']
-    for pname, _w, _d, _v, cfg_default, cfg_value in params_of(spec):
+    for q in params_of(spec):
+        pname, cfg_default, cfg_value = q[0], q[4], q[5]
         pcfg = {}
         if cfg_default is not None:
             pcfg['default'] = cfg_default
         if cfg_value is not None:
-            pcfg['value'] = cfg_value
+            pcfg['value'] = 'not a number' if len(q) > 7 and q[7] else cfg_value
         if pcfg:
             cfg[pname] = pcfg
     return cfg
@@ -466,7 +468,11 @@ def random_param(rng, pname):
     cls_value = rng.choice([None, None, None, 0, 1, 2])
     cfg_default = rng.choice([None, None, None, 0, 2])
     cfg_value = rng.choice([None, 0, 1, 1, 2])
-    return [pname, has_write, cls_default, cls_value, cfg_default, cfg_value]
+    q = [pname, has_write, cls_default, cls_value, cfg_default, cfg_value]
+    if rng.random() < 0.06:
+        # what Module.__init__ rejects: a value that is not of the datatype, a required value that is not given
+        q += [rng.random() < 0.5, cfg_value is not None and rng.random() < 0.7]
+    return q
 
 
 def decorate_params(rng, names, p_any=0.4):
@@ -693,6 +699,15 @@ def param_cases(rng):
                                        atts=[['io', 'io', False, 0]]))
                 rng.shuffle(mods)
             yield {'mods': mods, 'dyn': [], 'sched': None}
+    # what Module.__init__ rejects, on a module that others use or that stands alone
+    for needscfg, bad in ((True, False), (False, True), (True, True)):
+        for cls_default, cls_value, cfg_value in ((None, None, None), (0, None, None), (0, 1, None), (None, None, 1), (0, None, 0)):
+            q = ['w0', True, cls_default, cls_value, None, cfg_value, needscfg, bad]
+            mods = [mkspec('m0', poll=rng.random() < 0.5, params=[q, legacy_param('w1')])]
+            if rng.random() < 0.6:
+                mods.append(mkspec('m1', atts=[['a0', 'm0', True, 0]], ti=['a0'] if rng.random() < 0.5 else []))
+                rng.shuffle(mods)
+            yield {'mods': mods, 'dyn': [], 'sched': None}
 
 
 # =========================================================================================================
@@ -879,6 +894,8 @@ def signature(case, clause, obs):
         tag = 'typed'
     elif any(sp['fe'] or sp['fi'] for sp in specs):
         tag = 'failing-init'
+    elif any(len(q) > 6 and (q[6] or q[7]) for sp in specs for q in params_of(sp)):
+        tag = 'rejected-parameter'
     elif any(sp.get('wfail') for sp in specs):
         tag = 'write-fault'
     elif any(sp.get('rfail') or sp.get('pfail') for sp in specs):
@@ -1035,6 +1052,17 @@ def run(ctx):
             comm = [sp for sp in specs for f in ('rfail', 'pfail') if sp.get(f) in COMM_CLASSES]
             other = [sp for sp in specs if sp.get('wfail') or sp.get('rfail') or sp.get('pfail')]
             res.count('faults.' + ('comm-failure' if comm else 'other-exception' if other else 'none'))
+        if not obs['errors']:
+            for sp in specs:
+                if sp['name'] not in obs['modules']:
+                    continue
+                for _n, has_write, cls_default, cls_value, cfg_default, cfg_value in (q[:6] for q in params_of(sp)):
+                    start = cfg_value if cfg_value is not None else cls_value
+                    default = cfg_default if cfg_default is not None else cls_default
+                    res.count('param.' + ('no-write-method' if not has_write else 'no-start-value' if start is None else
+                                          'start-value-equals-default' if start == default else
+                                          'start-value-declared-in-class' if cfg_value is None else
+                                          'start-value-no-default' if default is None else 'start-value-differs-from-default'))
         if len(specs) >= 2 and natt >= 1:
             res.nontriv(wire_cfg(case))
         if len(res.samples) < 4 and natt >= 2 and len(obs['log']) < 40 and (len(res.samples) % 2 == 0) == bool(obs['errors']):
